@@ -24,5 +24,7 @@ type EventFocus struct {
 }
 
 func NewEventFocus(focused bool) *EventFocus {
-	return &EventFocus{Focused: focused}
+	ev := &EventFocus{EventTime: &EventTime{}, Focused: focused}
+	ev.SetEventNow()
+	return ev
 }
